@@ -33,10 +33,15 @@ def runNexts (sh : Shape) (exec : Exec) : Cache → SearchSt → List Int → Li
     let o := searchNext sh exec walkFuel c s d
     (o.res, o.st.pgPgno, o.st.pgSubno) :: runNexts sh exec o.cache o.st ds
 
-/-- OPEN (not proved; the per-call theorems of Props/C17.lean are its building blocks).  A fresh forward search on
-    any reachable cache: the calls up to the first NOT_FOUND return exactly the matching pages (each at least once:
-    one call per occurrence), never a page that does not match, and NOT_FOUND comes after at most one call per
-    occurrence. -/
+/-- The whole-pass statement as recorded in round 2.  A fresh forward search on any reachable cache: the calls up to
+    the first NOT_FOUND return exactly the matching pages (each at least once: one call per occurrence), never a page
+    that does not match, and NOT_FOUND comes after at most one call per occurrence.
+    Round 5: PROVED for forward passes as `Zvbi.Props.C17Pass.search_exact_pass` (+ order of the reports) under the
+    hypotheses this `def` should have carried: `NoWrap` for `fix = false` (C17-D2; a theorem for `fix = true`),
+    `0 <= S <= 0xFFFF`, the exclusion of C17-D7 for `sh.startExact = false`, and `PgOk p` in the second conjunct - the
+    model's store takes any page number, the walk visits 0x100..0x8FF only, so the conjunct as written here fails for a
+    matching page stored under number 5 (never stored by the decoder).  The hypothesis on `exec` is not needed.
+    OPEN: the same for backward passes and for passes with direction changes. -/
 def search_exact_full (fix : Bool) : Prop :=
   ∀ (sh : Shape) (exec : Exec) (ops : List PutOp) (P S : Int) (s0 : SearchSt) (n : Nat), (∀ o ∈ ops, o.subno ≤ 0x3F7F) →
     PgOk P → searchNew P S 1 = some s0 →
